@@ -40,6 +40,12 @@ impl Index {
         name: impl AsRef<Path> + fmt::Debug,
     ) -> Result<Self, Error> {
         let temp_path = name.as_ref().with_extension("byteseries_index.part");
+        // left behind if a previous rebuild was interrupted
+        match std::fs::remove_file(&temp_path) {
+            Ok(()) => (),
+            Err(e) if e.kind() == std::io::ErrorKind::NotFound => (),
+            Err(e) => return Err(Error::Io(e)),
+        }
         let index_file = FileWithHeader::new(&temp_path, &[])?;
         let entries = extract_entries(byteseries, payload_size)?;
 
